@@ -496,6 +496,12 @@ where
         self.members
             .choose_down_members(num_members, &mut self.choice_buf, &mut self.rng);
 
+        // Previous identities of ours are kept as down members, talking
+        // to them would be talking to ourselves
+        let own_addr = self.identity.addr();
+        self.choice_buf
+            .retain(|member| member.id().addr() != own_addr);
+
         while let Some(chosen) = self.choice_buf.pop() {
             self.send_message(chosen.into_identity(), Message::Announce, &mut runtime)?;
         }
